@@ -1,5 +1,6 @@
 """C19 — decoders of remote-controlled bytes never panic / over-allocate; encoders round-trip.
-Model: Model/Wire/{Protobuf,Schemas,KadMessage,MultihashAccept}.lean; adapter: /repo/src/verif/c19*.rs."""
+Model: Generated/Schemas.lean (translated from /repo's .proto files by tools/proto2lean.py on every run) over
+Model/Wire/Protobuf.lean; Model/Wire/{Schemas,KadMessage,KadEncoders,MultihashAccept}.lean; adapter: /repo/src/verif/c19*.rs."""
 import re
 from .common import peer_bytes, bump
 
@@ -8,33 +9,58 @@ AREA = "c19"
 LEAN_PROPS = "Litep2pVerif.Props.C19"
 THEOREMS = ["readVarint_consumes", "readVarint_writeVarint", "readKey_writeKey", "bytes_field_roundtrip",
             "kad_alloc_bound", "identify_alloc_bound", "bitswap_alloc_bound", "noise_alloc_bound", "key_alloc_bound",
-            "kad_peers_bounded", "kad_request_roundtrip"]
+            "kad_peers_bounded",
+            "kad_roundtrip", "identify_roundtrip", "bitswap_roundtrip", "noise_payload_roundtrip", "public_key_roundtrip",
+            "webrtc_message_roundtrip",
+            "kad_request_encoding", "kad_request_roundtrip", "kad_find_node_roundtrip", "kad_put_value_roundtrip",
+            "kad_get_record_roundtrip", "kad_find_node_response_roundtrip", "kad_put_value_response_roundtrip",
+            "kad_get_value_response_roundtrip", "kad_add_provider_roundtrip", "kad_get_providers_request_roundtrip",
+            "kad_get_providers_response_roundtrip"]
 RULE = ("valid protobuf encodings of every message kind (kademlia, identify, bitswap, noise handshake payload, public key) "
         "built by an independent Python encoder, then mutated (bit flips, truncation at every offset, splices, extreme length "
         "prefixes, overlong/overflowing varints, wrong wire types, unknown fields, groups nested up to and beyond the recursion "
         "limit, invalid UTF-8) plus random noise; each real decoder runs under catch_unwind with a counting allocator and is "
-        "compared field by field with the Lean model; the library's own Kademlia encoders are round-tripped through "
-        "from_bytes. Non-trivial = input decodes successfully at the protobuf level with at least one field, or is rejected "
-        "after at least one field was read; distinct by SHA-256 of (op, observation)")
+        "compared field by field with the Lean model; structured random messages of every schema (extreme i32 values, empty and "
+        "default-valued nested messages, long repeated fields, non-ASCII strings; a few that are not values of the Rust types) "
+        "are encoded by prost and by the model's generated encoder and compared byte for byte, then decoded and compared with "
+        "the value (oracle); the library's own Kademlia encoders are compared byte for byte with the model's and "
+        "round-tripped through from_bytes. Non-trivial = input decodes successfully at the protobuf level with at least one "
+        "field, or is rejected after at least one field was read, or an encoder produced bytes; distinct by SHA-256 of "
+        "(op, observation)")
 TRUSTED_BASE = ["Lean 4.33 kernel", "axioms: propext, Classical.choice, Quot.sound only",
-                "hand-written model of prost 0.13 decoding rules (Model/Wire/Protobuf.lean, Schemas.lean) and of "
-                "KademliaMessage::from_bytes / KademliaPeer::try_from / record_from_schema, tied by this differential run",
+                "tools/proto2lean.py: the translator from /repo's .proto files (list read from build.rs) to the Lean "
+                "structures, decoders, encoders and their generated proofs; it transcribes prost's rules (prost 0.13.5, "
+                "prost-derive 0.13.5, prost-build 0.14.4; each rule cited file:line in the module doc). prost's runtime and "
+                "code generator are NOT verified: the transcription is tied to the real prost by this differential run "
+                "(decoders field by field, encoders byte for byte)",
+                "hand-written wire primitives Model/Wire/Protobuf.lean (varint, key, skip_field, UTF-8) and models of "
+                "KademliaMessage::from_bytes / KademliaPeer::try_from / record_from_schema and of the nine KademliaMessage "
+                "encoders (Model/Wire/KadMessage.lean, KadEncoders.lean), tied by this differential run",
                 "adapters /repo/src/verif/c19*.rs, harness counting allocator, verif.py, checks/c19.py",
                 "third-party parsers are parameters of the model and only sampled for panic/allocation: multiaddr, cid, "
-                "ed25519-dalek point decompression; prost's internals are validated by comparison, not verified"]
+                "ed25519-dalek point decompression"]
 ASSUMPTIONS = ["frames handed to these decoders were already bounded by the substream codec (C04) / noise frame size (C02)",
-               "allocation is measured as the peak of live heap bytes during the call (harness global allocator)"]
+               "allocation is measured as the peak of live heap bytes during the call (harness global allocator)",
+               "round-trip theorems quantify over well-formed values (X.WF, decidable): what the Rust types guarantee — i32/u32 "
+               "ranges, UTF-8 strings, lengths and nested encodings below 2^64; `encoded_len` is modelled as the length of the "
+               "encoding; the order in which a peer's address store yields several addresses and the TTL computed from the "
+               "clock are inputs of the Kademlia encoder models"]
 MANIFEST = {
-    "text": "Lean 4 theorems about a model of the protobuf decoders litep2p feeds with remote bytes: total functions (no panic "
+    "text": "Lean 4 theorems about a model of the protobuf codecs litep2p feeds with remote bytes, whose schemas (structures, "
+            "merge_field, encode_raw) are regenerated from the crate's .proto files on every run: total functions (no panic "
             "value exists), allocation bounded by the input length for every schema (kad/identify/bitswap/noise/key_alloc_bound), "
-            "number of peers taken from a message bounded by the replication factor, varint/key/bytes-field and FIND_NODE "
-            "request round trips; tied to prost and to KademliaMessage::from_bytes by a differential mutation fuzz under "
-            "catch_unwind with a counting allocator. Partial: the internals of prost/multiaddr/cid are compared and sampled, not "
-            "proved; other decoders of the property (multistream, frame lengths, peer ids, bitswap prefixes) are covered by "
+            "number of peers taken from a message bounded by the replication factor, decode(encode m) = m for every well-formed "
+            "value of every translated message (kad/identify/bitswap/noise_payload/public_key/webrtc_message_roundtrip), and "
+            "from_bytes-level round trips of the nine hand-written Kademlia encoders; tied to prost and to KademliaMessage by a "
+            "differential mutation fuzz of the decoders under catch_unwind with a counting allocator and a byte-for-byte "
+            "comparison of the encoders. Partial: the internals of prost/multiaddr/cid are compared and sampled, not proved; "
+            "other decoders of the property (multistream, frame lengths, peer ids, bitswap prefixes) are covered by "
             "C03/C04/C18/C20 models.",
-    "note": "Trusted: Lean kernel, the three standard axioms, the hand-written wire model and its sampled tie, the counting "
-            "allocator. Third-party parsers are parameters.",
-    "technique": "Lean 4 proof (totality, size invariants by induction on the input) + differential mutation fuzzing of real decoders against the model",
+    "note": "Trusted: Lean kernel, the three standard axioms, the .proto→Lean translator (prost's rules transcribed, not "
+            "prost itself), the hand-written wire primitives and their sampled tie, the counting allocator. Third-party "
+            "parsers are parameters.",
+    "technique": "Lean 4 proof (totality, size invariants by induction on the input, generic per-field round-trip lemmas "
+                 "instantiated by generated proofs) + differential mutation fuzzing of real decoders and encoders against the model",
     "design_ref": "DESIGN.md §7 C19",
 }
 KEEP_PREFIX = 0
@@ -295,6 +321,234 @@ def rt_op(rng):
     return f"rt {k} {peers()} {peers()}"
 
 
+# ---------------------------------------------------------------- structured messages for the encoders
+I32S = [0, 0, 1, 2, 3, 4, 5, 10, -1, -5, 2 ** 31 - 1, -2 ** 31, 127, 128, 300]
+UTF8S = [b"", b"/ipfs/id/1.0.0", b"litep2p/1.0.0", "\u00fc\u2192\U0001f600".encode(), b"a", b"/yamux/1.0.0"]
+NOT_UTF8 = [b"\xff", b"\xc0\x80", b"\xed\xa0\x80", b"ab\x80"]
+
+
+def s_b(b):
+    return b.hex() if b else "-"
+
+
+def s_ob(o):
+    return "none" if o is None else s_b(o)
+
+
+def s_lb(l):
+    return "+".join(s_b(x) for x in l) if l else "*"
+
+
+def d_lb(l):
+    return "[" + ";".join(s_b(x) for x in l) + "]"
+
+
+def some(rng, p, f):
+    return f() if rng.random() < p else None
+
+
+def g_bytes(rng, hi=8):
+    return rand_bytes(rng, rng.randrange(0, hi)) if rng.random() < 0.85 else b""
+
+
+def g_str(rng, bad):
+    if bad and rng.random() < 0.5:
+        return rng.choice(NOT_UTF8)
+    return rng.choice(UTF8S)
+
+
+def g_i32(rng, bad):
+    if bad and rng.random() < 0.5:
+        return rng.choice([2 ** 31, -2 ** 31 - 1, 2 ** 40])
+    return rng.choice(I32S)
+
+
+def enc_kad(rng, bad):
+    """(spec, expected dump) of a random schema::kademlia::Message."""
+    def peer():
+        idb = peer_id_bytes(rng) if rng.random() < 0.8 else b""
+        addrs = [rng.choice(ADDRS) for _ in range(rng.choice([0, 1, 2, 3]))]
+        conn = rng.choice([0, 1, 2, 3, 3, -1, 7]) if not bad else g_i32(rng, bad)
+        return (f"{s_b(idb)}/{'+'.join(s_b(a) for a in addrs)}/{conn}",
+                f"{{id={s_b(idb)},addrs={d_lb(addrs)},conn={conn}}}")
+    ty, clr, key = g_i32(rng, bad), rng.choice([10, 10, 0, -1, 2 ** 31 - 1]), g_bytes(rng)
+    if rng.random() < 0.5:
+        k, v, tr, pub = g_bytes(rng), g_bytes(rng, 20), (g_str(rng, bad) if rng.random() < 0.4 else b""), \
+            (peer_id_bytes(rng) if rng.random() < 0.5 else b"")
+        ttl = rng.choice([0, 1, 3600, 2 ** 32 - 1] + ([2 ** 32] if bad else []))
+        rec_s, rec_d = f"{s_b(k)},{s_b(v)},{s_b(tr)},{s_b(pub)},{ttl}", f"{{k={s_b(k)},v={s_b(v)},tr={s_b(tr)},pub={s_b(pub)},ttl={ttl}}}"
+    else:
+        rec_s, rec_d = "none", "none"
+    closer = [peer() for _ in range(rng.choice([0, 1, 2, 3, 22]))]
+    prov = [peer() for _ in range(rng.choice([0, 0, 1, 3]))]
+    spec = f"{ty} {clr} {s_b(key)} {rec_s} {';'.join(p[0] for p in closer) or '*'} {';'.join(p[0] for p in prov) or '*'}"
+    dump = (f"ok type={ty} clr={clr} key={s_b(key)} rec={rec_d} closer=[{','.join(p[1] for p in closer)}] "
+            f"prov=[{','.join(p[1] for p in prov)}]")
+    return spec, dump
+
+
+def enc_identify(rng, bad):
+    pv, av = some(rng, 0.7, lambda: g_str(rng, bad)), some(rng, 0.7, lambda: g_str(rng, bad))
+    pk = some(rng, 0.7, lambda: g_bytes(rng, 40))
+    la = [rng.choice(ADDRS) for _ in range(rng.choice([0, 1, 3, 30]))]
+    oa = some(rng, 0.6, lambda: rng.choice(ADDRS))
+    pr = [g_str(rng, bad) for _ in range(rng.choice([0, 1, 3, 20]))]
+    spec = f"{s_ob(pv)} {s_ob(av)} {s_ob(pk)} {s_lb(la)} {s_ob(oa)} {s_lb(pr)}"
+    dump = f"ok pv={s_ob(pv)} av={s_ob(av)} pk={s_ob(pk)} la={d_lb(la)} oa={s_ob(oa)} pr={d_lb(pr)}"
+    return spec, dump
+
+
+def enc_bitswap(rng, bad):
+    if rng.random() < 0.7:
+        es = []
+        for _ in range(rng.choice([0, 1, 3, 25])):
+            b, p, c, w, d = g_bytes(rng, 40), g_i32(rng, bad), rng.choice([0, 1]), rng.choice([0, 1, 1, 2, -1]), rng.choice([0, 1])
+            es.append((f"{s_b(b)}/{p}/{c}/{w}/{d}", f"{{b={s_b(b)},p={p},c={c},w={w},s={d}}}"))
+        full = rng.choice([0, 1])
+        wl_s, wl_d = f"{full}:{';'.join(e[0] for e in es) or '*'}", f"{{entries=[{','.join(e[1] for e in es)}],full={full}}}"
+    else:
+        wl_s, wl_d = "none", "none"
+    blocks = [g_bytes(rng, 10) for _ in range(rng.choice([0, 0, 2]))]
+    payload = [(g_bytes(rng, 6), g_bytes(rng, 64)) for _ in range(rng.choice([0, 1, 3]))]
+    pres = [(g_bytes(rng, 40), rng.choice([0, 1, 1, 2, -1])) for _ in range(rng.choice([0, 1, 3]))]
+    pend = g_i32(rng, bad)
+    spec = (f"{wl_s} {s_lb(blocks)} {';'.join(f'{s_b(p)}/{s_b(d)}' for p, d in payload) or '*'} "
+            f"{';'.join(f'{s_b(c)}/{t}' for c, t in pres) or '*'} {pend}")
+    dump = (f"ok wl={wl_d} blocks={d_lb(blocks)} payload=[{','.join(f'{{p={s_b(p)},d={s_b(d)}}}' for p, d in payload)}] "
+            f"pres=[{','.join(f'{{c={s_b(c)},t={t}}}' for c, t in pres)}] pb={pend}")
+    return spec, dump
+
+
+def enc_noise(rng, bad):
+    k = some(rng, 0.85, lambda: g_bytes(rng, 40))
+    sg = some(rng, 0.85, lambda: rand_bytes(rng, rng.choice([0, 63, 64, 65])))
+    if rng.random() < 0.6:
+        ch = [g_bytes(rng, 34) for _ in range(rng.choice([0, 1, 3]))]
+        sm = [g_str(rng, bad) for _ in range(rng.choice([0, 1, 3]))]
+        ext_s, ext_d = f"{s_lb(ch)},{s_lb(sm)}", f"{{ch={d_lb(ch)},sm={d_lb(sm)}}}"
+    else:
+        ext_s, ext_d = "none", "none"
+    return f"{s_ob(k)} {s_ob(sg)} {ext_s}", f"ok key={s_ob(k)} sig={s_ob(sg)} ext={ext_d}"
+
+
+def enc_key(rng, bad):
+    t, d = g_i32(rng, bad), g_bytes(rng, 40)
+    return f"{t} {s_b(d)}", f"ok type={t} data={s_b(d)}"
+
+
+ENC_BUILDERS = {"kad": enc_kad, "identify": enc_identify, "bitswap": enc_bitswap, "noise": enc_noise, "key": enc_key}
+
+
+def encpb_op(rng):
+    schema = rng.choice(list(ENC_BUILDERS))
+    spec, _dump = ENC_BUILDERS[schema](rng, rng.random() < 0.06)
+    return f"encpb {schema} {spec}"
+
+
+class NotAValue(Exception):
+    """The spec does not denote a value of the Rust type (integer outside i32/u32, string not UTF-8)."""
+
+
+def p_b(x):
+    return "-" if x == "-" else bytes.fromhex(x).hex()
+
+
+def p_str(x):
+    if x != "-":
+        try:
+            bytes.fromhex(x).decode("utf-8")
+        except UnicodeDecodeError:
+            raise NotAValue(x)
+    return p_b(x)
+
+
+def p_i32(x):
+    if not -2 ** 31 <= int(x) < 2 ** 31:
+        raise NotAValue(x)
+    return str(int(x))
+
+
+def p_list(x, item, sep="+"):
+    return [] if x in ("*", "") else [item(y) for y in x.split(sep)]
+
+
+def p_opt(x, item):
+    return "none" if x == "none" else item(x)
+
+
+def expected_encpb(op):
+    """The dump the encoding must decode to, computed from the op alone (None: not a value of the Rust type)."""
+    t = op.split()
+    schema, a = t[1], t[2:]
+    try:
+        if schema == "kad":
+            def peer(x):
+                i, addrs, c = x.split("/")
+                return f"{{id={p_b(i)},addrs=[{';'.join(p_list(addrs, p_b))}],conn={p_i32(c)}}}"
+            rec = "none"
+            if a[3] != "none":
+                k, v, tr, pub, ttl = a[3].split(",")
+                if not 0 <= int(ttl) < 2 ** 32:
+                    raise NotAValue(ttl)
+                rec = f"{{k={p_b(k)},v={p_b(v)},tr={p_str(tr)},pub={p_b(pub)},ttl={int(ttl)}}}"
+            return (f"ok type={p_i32(a[0])} clr={p_i32(a[1])} key={p_b(a[2])} rec={rec} "
+                    f"closer=[{','.join(p_list(a[4], peer, ';'))}] prov=[{','.join(p_list(a[5], peer, ';'))}]")
+        if schema == "identify":
+            return (f"ok pv={p_opt(a[0], p_str)} av={p_opt(a[1], p_str)} pk={p_opt(a[2], p_b)} la=[{';'.join(p_list(a[3], p_b))}] "
+                    f"oa={p_opt(a[4], p_b)} pr=[{';'.join(p_list(a[5], p_str))}]")
+        if schema == "bitswap":
+            def entry(x):
+                b, p, c, w, d = x.split("/")
+                return f"{{b={p_b(b)},p={p_i32(p)},c={int(c)},w={p_i32(w)},s={int(d)}}}"
+            wl = "none"
+            if a[0] != "none":
+                full, es = a[0].split(":")
+                wl = f"{{entries=[{','.join(p_list(es, entry, ';'))}],full={int(full)}}}"
+            block = lambda x: "{p=%s,d=%s}" % tuple(p_b(y) for y in x.split("/"))
+            pres = lambda x: "{c=%s,t=%s}" % (p_b(x.split("/")[0]), p_i32(x.split("/")[1]))
+            return (f"ok wl={wl} blocks=[{';'.join(p_list(a[1], p_b))}] payload=[{','.join(p_list(a[2], block, ';'))}] "
+                    f"pres=[{','.join(p_list(a[3], pres, ';'))}] pb={p_i32(a[4])}")
+        if schema == "noise":
+            ext = "none"
+            if a[2] != "none":
+                ch, sm = a[2].split(",")
+                ext = f"{{ch=[{';'.join(p_list(ch, p_b))}],sm=[{';'.join(p_list(sm, p_str))}]}}"
+            return f"ok key={p_opt(a[0], p_b)} sig={p_opt(a[1], p_b)} ext={ext}"
+        if schema == "key":
+            return f"ok type={p_i32(a[0])} data={p_b(a[1])}"
+    except (NotAValue, ValueError, IndexError):
+        return None
+    return None
+
+
+def kenc_op(rng):
+    """The hand-written Kademlia encoders with deterministic inputs: expiry 0 (none) / 2 (past ⇒ ttl 1) / 3 (far ⇒
+    u32::MAX); providers with at most one address (a `ContentProvider` rebuilds the address map)."""
+    k = rng.choice(RT_KINDS)
+    kh = lambda: hx(rand_bytes(rng, rng.randrange(1, 6)))
+    vh = lambda: hx(rand_bytes(rng, rng.randrange(0, 12)))
+    peer = lambda maxa=5: f"{rng.randrange(1, 30)}:{rng.choice([a for a in [0, 1, 2, 5] if a <= maxa])}:{rng.randrange(0, 4)}"
+    peers = lambda maxa=5: ",".join(peer(maxa) for _ in range(rng.choice([1, 2, 5, 21]))) if rng.random() < 0.85 else "-"
+    rec = lambda: f"{kh()} {vh()} {rng.choice(['-', str(rng.randrange(1, 30))])} {rng.choice([0, 2, 3])}"
+    if k in ("findnode", "getrecord", "getproviders"):
+        return f"enc {k} {kh()}"
+    if k == "putvalue":
+        return f"enc {k} {rec()}"
+    if k == "findnode_resp":
+        return f"enc {k} {kh()} {peers()}"
+    if k == "putvalue_resp":
+        return f"enc {k} {kh()} {vh()}"
+    if k == "getvalue_resp":
+        return f"enc {k} {kh()} {peers()}" + (f" {rec()}" if rng.random() < 0.6 else "")
+    if k == "addprovider":
+        return f"enc {k} {kh()} {peer(1)}"
+    return f"enc {k} {peers(1)} {peers()}"
+
+
+def gen_enc_case(rng, n):
+    return [encpb_op(rng) if rng.random() < 0.7 else kenc_op(rng) for _ in range(n)]
+
+
 def gen_case(rng, n):
     ops = []
     for _ in range(n):
@@ -332,6 +586,9 @@ def gen_cases(rng, tier):
             yield c
     for _ in range(n):
         yield gen_case(rng, 25)
+    # encoders: prost's on structured random messages of every schema, the hand-written Kademlia ones
+    for _ in range({"quick": 60, "thorough": 2500, "search": 200}[tier]):
+        yield gen_enc_case(rng, 20)
 
 
 _ALLOC = re.compile(r" alloc=(\d+)$")
@@ -346,6 +603,7 @@ def normalize(line):
     if line.startswith("panic"):
         return "panic"
     line, _ = split_alloc(line)
+    line = re.sub(r" #in .*$", "", line)
     if line.startswith("ok ") and " => " in line:      # rt: compare the decoded part only
         line = line.split(" => ", 1)[1]
     line = re.sub(r" #addrs .*$", "", line) if line.startswith("ok pv=") else line
@@ -368,6 +626,9 @@ def model_lines(case, impl):
                 out.append(f"kad {h} 20 #addrs {tbl}".rstrip())
             else:
                 out.append(op)
+        elif t[0] == "enc":
+            # the encoder's inputs as bytes, reported by the adapter (peer ids, address order, computed ttl)
+            out.append("kenc " + o.split(" #in ", 1)[1] if " #in " in o else op)
         elif t[0] == "key":
             p = "1" if o.startswith("ok ") else ("0" if o == "err invalid" else "-")
             out.append(f"{op} #point {p}")
@@ -443,6 +704,15 @@ def oracle(case, out):
             if alloc > ALLOC_FACTOR * n + ALLOC_CONST:
                 bad.append({"kind": "over-allocation", "msg": f"decoding {n} bytes allocated {alloc} bytes", "step": i,
                             "op": op[:200], "out": o[:200]})
+        if t[0] == "encpb":
+            want = expected_encpb(op)
+            if want is not None:
+                if " ==> " not in body:
+                    bad.append({"kind": "encoder-roundtrip", "msg": f"encoding a valid {t[1]} message answered {body[:120]}",
+                                "step": i, "op": op[:300], "out": o[:300]})
+                elif body.split(" ==> ", 1)[1] != want:
+                    bad.append({"kind": "encoder-roundtrip", "step": i, "op": op[:300], "out": o[:300],
+                                "msg": f"encoded {t[1]} message decodes to {body.split(' ==> ', 1)[1][:200]}, expected {want[:200]}"})
         if t[0] == "rt":
             want = expected_rt(op)
             got = body.split(" => ", 1)[1] if " => " in body else body
@@ -456,7 +726,7 @@ def oracle(case, out):
 def stats(case, out, acc):
     for op, o in zip(case, out):
         t = op.split()
-        kind = t[0] + (":" + t[1] if t[0] in ("pb", "rt") else "")
+        kind = t[0] + (":" + t[1] if t[0] in ("pb", "rt", "encpb", "enc") else "")
         body, alloc = split_alloc(o)
         res = "ok" if body.startswith("ok") or (t[0] == "kad" and not body.startswith("none")) else "rejected"
         bump(acc, f"{kind}:{res}")
@@ -468,7 +738,8 @@ def stats(case, out, acc):
 
 def nontrivial(case, out):
     return any(o.startswith("ok ") or o.startswith(("findnode", "getrecord", "putvalue", "addprovider", "getproviders")) for o in out) \
-        and any(o.startswith(("err", "none")) for o in out)
+        and any(o.startswith(("err", "none")) for o in out) \
+        or any(" ==> ok" in o or " #in " in o for o in out)
 
 
 def matches_known(k, v):
